@@ -117,6 +117,17 @@ class C05(Property):
             except UnicodeEncodeError:
                 continue
             cases.append(Case("fromstr " + hexs(data), tags=("from_str-with-bom",)))
+        # lines holding bytes that are not valid UTF-8 (a legacy ANSI file) AND trailing white space / CR: the trim applies to them as to every
+        # other line (seed C05-s: the replacement path returned the line untrimmed)
+        bad = [b"\xff", b"\xe9", b"Caf\xe9 del Mar", b"\xe2\x82", b"\xf0\x9f"]
+        for _ in range(120 if tier == "quick" else 4000):
+            ls = [b"osu file format v12" if rng.random() < 0.5 else b"", b"[Metadata]"]
+            for _ in range(rng.randint(1, 5)):
+                key = rng.choice([b"Title:", b"Tags:a b ", b"Source:", b"Artist:x", b"// c ", b""])
+                ls.append(key + (rng.choice(bad) if rng.random() < 0.7 else b"plain") + rng.choice([b"", b" ", b"  ", b"\t", b" \r", b"\r", b"\xc2\xa0", b"\xe3\x80\x80 "]))
+            if rng.random() < 0.3:
+                ls.insert(rng.randrange(1, len(ls)), b"[General]" + rng.choice([b" ", b"\xff", b" \xff "]))
+            cases.append(Case("frame " + hexs(b"\n".join(ls) + b"\n"), tags=("invalid-utf8-with-trailing-space",)))
         # a second U+FEFF after the real BOM, in every encoding and through from_str: only the leading one is a BOM; the version line that
         # follows a stray one does not carry the version prefix (latest version, and the line opens no section)
         for enc in ("utf8", "utf8bom", "utf16le", "utf16be"):
